@@ -118,8 +118,7 @@ theorem mkqs_lcp_facts (l : List Nat) (n nLess nEq nGt peStart peEnd d : Nat) (p
   · rw [g2, g2a, g1]
     have a1 : ¬ (nGt > 0 ∧ 0 = n - nGt) := by omega
     have a2 : ¬ (nLess > 0 ∧ 0 = nLess) := by omega
-    have a3 : ¬ (pz = true ∧ peStart + 1 ≤ 0 ∧ 0 < peEnd) := by omega
-    simp [a1, a2, a3]
+    simp [a1, a2]
   · intro h
     rw [g2, g2a]
     have a1 : ¬ (nGt > 0 ∧ nLess = n - nGt) := by omega
